@@ -1620,9 +1620,13 @@ def _select_reader_conditional_branch(
             return _resolve_tagged_literal(ctx, form.tag, resolved)
         return form
 
-    return _postwalk(
-        resolve_tagged_literals, reader_cond.select_feature(ctx.reader_features)
-    )
+    try:
+        return _postwalk(
+            resolve_tagged_literals, reader_cond.select_feature(ctx.reader_features)
+        )
+    except TypeError as e:
+        # Resolving a tagged literal may put an unhashable value into a set or a map key
+        raise ctx.syntax_error(f"Invalid form in reader conditional: {e}") from None
 
 
 def _should_splice_reader_conditional(ctx: ReaderContext, form: LispReaderForm) -> bool:
